@@ -810,7 +810,8 @@ func (w *World) accessPathD(v ssa.Value, d int) string {
 		if x.Comment != "" && !strings.HasPrefix(x.Comment, "complit") && x.Comment != "new" {
 			return "var:" + x.Comment
 		}
-		return fmt.Sprintf("alloc@%d", w.Fset.Position(x.Pos()).Line)
+		ps := w.Fset.Position(x.Pos())
+		return fmt.Sprintf("alloc@%d:%d", ps.Line, ps.Column)
 	case *ssa.FieldAddr:
 		return w.accessPathD(x.X, d+1) + "." + fieldName(x.X.Type(), x.Field)
 	case *ssa.Field:
@@ -855,6 +856,9 @@ func (w *World) accessPathD(v ssa.Value, d int) string {
 		}
 		return fmt.Sprintf("call@%d", w.Fset.Position(x.Pos()).Line)
 	case *ssa.Const:
+		if x.Value == nil {
+			return "const:nil"
+		}
 		return "const:" + x.Value.String()
 	case *ssa.Phi:
 		return "phi:" + x.Comment
